@@ -394,6 +394,8 @@ func table() []entry {
 		iface[native.MarkdownStringer]("native.MarkdownStringer", nil, MDStr{"a"}),
 		iface[native.MarkdownEnvStringer]("native.MarkdownEnvStringer", nil, MDEnvStr{"a"}),
 	}
+	t = append(t, keyEntries()...)
+	t = append(t, wideEntries()...)
 	return t
 }
 
